@@ -17,6 +17,12 @@ def run(ctx: Ctx) -> None:
     with ctx.only("T2.euler-matrix"):  # parameter -> matrix map of EulerRotation for every order and notation (shared with C08)
         t2_rot.run_euler(ctx)
     ctx.floor("T2.euler-matrix", 24)
+    # "for any parameters": a dense model whose parameters are predicted serves the field of its *current* parameters through every
+    # view (call, tensor, disp) after any short history of re-conditioning / replacing operations (shared with C09)
+    from ..tables import t6_transforms
+    t6_transforms.run_histories(ctx, max_len=2, only_classes=("DisplacementFieldTransform", "StationaryVelocityFieldTransform"),
+                                only_kinds=("callable",))
+    ctx.floor("T6x.call-fresh", 2)
     ctx.floor("T67.generic", 12)
     ctx.floor("T12.identity", 40)
     ctx.floor("T67.views", 20)
@@ -62,6 +68,7 @@ def mutants(prog):
         ("transformer: default source is the transform grid", T, "ImageTransformer.__init__", "source = target", "source = transform.grid()", "T67.warp"),
         ("data(): buffers of the original cleared instead of the copy's", P, "ParametricTransform.data", "copy.clear_buffers()\n    return copy", "self.clear_buffers()\n    return copy", "T67.derived-views"),
         ("disp: flag-only difference not re-expressed", B, "SpatialTransform.disp", "if grid != self.grid() or grid.align_corners() != self.align_corners():", "if grid != self.grid():", "T67.views"),
+        ("svf update: velocity evaluated before the predicted parameters are refreshed", "deepali.spatial.nonrigid", "StationaryVelocityFieldTransform.update", "super().update()\n    v = self.evaluate()", "v = self.evaluate()\n    super().update()", "T6x."),
     ]
     for name, mod, fn, old, new, expect in specs:
         ov = source_sub(prog, mod, fn, old, new)
